@@ -49,13 +49,11 @@ Escapable == {"Esc","GB","GE","MS","Misc","EOL","Sp","Com","Oth"}
 StopSet == {"Esc","GB","GE","MS","BB","BE","Com"}
 Tok(c, a, b) == [c |-> c, s |-> SubSeq(input, a+1, b), p |-> a]
 Min(a,b) == IF a < b THEN a ELSE b
-(* Named deviation Dev_PeekWrap: text.peek(-1) at cursor 0 is a negative    *)
-(* Python index on the lazily filled queue, i.e. the last *materialised*    *)
-(* character.  Only the category (and split) of a leading letter run is     *)
-(* affected, never the concatenated text.                                   *)
-Fill0 == IF cat(Min(n,2)-1) = "Esc" THEN Min(n, MaxPunctLen + 1) ELSE Min(n,2)
-PrevCat(p) == IF p > 0 THEN cat(p-1) ELSE cat(Min(n,2)-1)
-PrevCat10(p) == IF p > 0 THEN cat(p-1) ELSE cat(Fill0 - 1)
+(* The character before the cursor; at cursor 0 there is none.  (Until the repair recorded in known_findings.json - C20,   *)
+(* look-behind before the start - text.peek(-1) at cursor 0 was a negative Python index on the lazily filled queue, i.e.  *)
+(* the last *materialised* character: former named deviation Dev_PeekWrap.)                                               *)
+PrevCat(p) == IF p > 0 THEN cat(p-1) ELSE "Start"
+PrevCat10(p) == PrevCat(p)
 MatchesAt(pt, p) == p + Len(pt) <= n /\ SubSeq(input, p+1, p+Len(pt)) = pt
 RECURSIVE NameEnd(_)
 NameEnd(i) == IF i < n /\ (cat(i) = "Let" \/ input[i+1] = "*") THEN NameEnd(i+1) ELSE i
